@@ -251,6 +251,22 @@ def alloc_like(prog, cg, pools=False):
                 if src is not None and src['k'] == 'call' and src.get('callee') in out:
                     avars.add(name)
             calls_alloc = any(c.get('callee') in out for c in f.calls())
+            # an allocation that the function also links into a structure it was given
+            # (`*list_head = item; return item;`) is kept there: the caller gets a
+            # borrowed pointer, not ownership
+            kept = set()
+            for n in f.all_nodes():
+                if n['k'] == 'bin' and n['op'] == '=':
+                    r_ = cu.strip_casts(f, f.kid(n, 1))
+                    l_ = cu.strip_casts(f, f.kid(n, 0))
+                    if r_ is not None and r_['k'] == 'ref' and r_['name'] in avars and l_ is not None and \
+                            (l_['k'] == 'un' and l_['op'] == '*' or l_['k'] == 'member' and l_.get('arrow')
+                             or l_['k'] == 'sub'):
+                        root = l_
+                        while root is not None and root['k'] in ('un', 'member', 'sub', 'cast'):
+                            root = f.kid(root, 0)
+                        if root is not None and root['k'] == 'ref' and root.get('dk') in ('param', 'global'):
+                            kept.add(r_['name'])
             for n in f.all_nodes():
                 if n['k'] != 'ret' or not n.get('c'):
                     continue
@@ -260,7 +276,7 @@ def alloc_like(prog, cg, pools=False):
                 # returns the allocation itself, or NULL on a path of a
                 # function that allocates (pool/page allocators)
                 hit = (e['k'] == 'call' and e.get('callee') in out) or \
-                    (e['k'] == 'ref' and e['name'] in avars)
+                    (e['k'] == 'ref' and e['name'] in avars and (pools or e['name'] not in kept))
                 if not hit and pools and calls_alloc and avars and cu.const_of(e) == 0:
                     for a in f.ancestors(n):
                         if a['k'] == 'if':
